@@ -263,7 +263,8 @@ CHECKS["C15"] = dict(
          "stays within 1.5 tolerances of the exact curve for arcs and non-doubling-back polynomial "
          "sections, ellipses, rings, slices, racetracks and fillets; TLC decides over the quantised "
          "observations. "
-             "Elliptical arcs and ellipse slices with angles below -180 degrees at one or both ends are included.",
+             "Elliptical arcs and ellipse slices with angles below -180 degrees at one or both ends are included. "
+             "Closed interpolations (angle constraints and tensions per knot) must give the same curve whichever knot they start from.",
     note="Trusted: TLC, Paths.tla, the harness's distance measuring (sampling + ternary search, "
          "~120 lines). Hobby interpolation only as 'passes through the points'; command strings "
          "are issued through Curve::commands one instruction at a time and as one array; fillets held "
@@ -290,7 +291,8 @@ CHECKS["C07"] = dict(
          "radii, the outline must be the swept region (3-tolerance band, as C08) of the line-and-arc "
          "centre curve for SOME admissible set of bent corners: tangent lengths fit into every leg "
          "and no further corner could be bent as well. "
-             "Bend cases include diagonal legs mirrored about an axis-parallel line, and the centre line written to PATH records (element_center of the same path flagged simple) must follow the centre curve of an admissible set of bends.",
+             "Bend cases include diagonal legs mirrored about an axis-parallel line, and the centre line written to PATH records (element_center of the same path flagged simple) must follow the centre curve of an admissible set of bends. "
+             "One corner at ten right and non-right angles (3-4-5 directions) x 3 joins x both directions is decided by exact lattice tests: the segment rectangles are covered and nothing beyond the mitre tip is.",
     note="Trusted: TLC, Paths.tla, the harness's floating-point winding-number test of samples "
          "against gdstk's outline and, for bends, its construction of the exact centre curve. Curved "
          "spines (arc / bezier sections) are not in the region check; bends only on one element; "
@@ -313,7 +315,8 @@ CHECKS["C08"] = dict(
          "surely within (beyond) half the width of the exact centre curve by more than 3 tolerances "
          "is (is not) covered by the outline. The transform algebra (trafo, width_scale, "
          "offset_scale) is checked under C10; PATH-record equivalence of simple paths under C01. "
-             "Region cases include single sections whose offset runs linearly (slanted or bent centre curve), where caps and ends must follow the centre curve's tangent.",
+             "Region cases include single sections whose offset runs linearly (slanted or bent centre curve), where caps and ends must follow the centre curve's tangent. "
+             "Polyline paths (sharp corners; samples within the mitre's reach of a corner carry no claim) are included.",
     note="Trusted: TLC, Paths.tla, the harness's centre-curve sampling and point-in-outline test. "
          "User-function interpolations and end caps other than flush/round are not in the clearance "
          "check; warning codes (IntersectionNotFound) are accepted.",
